@@ -147,6 +147,13 @@ var checks = map[string]*check{
 		assumptions: commonAssumptions,
 		req:         []string{"GobRoundTrip:wellformed", "GobRoundTrip:prec0", "GobRoundTrip:precn", "GobMutate:corrupt-error", "GobMutate:wellformed", "GobDecode:corrupt-error", "GobStream", "GobEncode:finite"},
 	},
+	"C19": {
+		id: "C19", models: []model{}, trace: "Trace_Core", batch: 4,
+		gen:         func(g *gen.G, thor bool) []gen.Program { return gen.Ctx(g, n(thor, 50, 1000), n(thor, 150, 300)) },
+		rule:        "context sessions of 150-300 calls: Add/Sub/Mul/Quo/FMA/Sqrt/Neg/Abs/Set with receivers mostly distinct from the operands (and some aliased), zeros and infinities injected so that NaN-producing calls occur, Err() at random points, SetPrec/SetMode of the context, factories, receivers whose own precision/mode differ from the context's, and calls with a nil operand (a panic that is not ErrNaN); the latch is a hidden variable of the specification, inferred by TLC from the history",
+		assumptions: commonAssumptions,
+		req:         []string{"Ctx.Add:latched", "Ctx.Mul:nan", "Ctx.Quo:nan", "Ctx.Err:TRUE", "Ctx.Err:FALSE", "Ctx.AddNilY:panic", "Ctx.Sqrt:distinct", "Ctx.FMA:distinct", "Ctx.Add:aliased"},
+	},
 	"C20": {
 		id: "C20", models: []model{}, trace: "Trace_Core", batch: 4,
 		gen:         func(g *gen.G, thor bool) []gen.Program { return gen.Raw(g, n(thor, 1500, 30000)) },
